@@ -235,6 +235,18 @@ theorem stage5_lift (h : MHyp D) :
       = condTab (bM f D) (uM f D) f :=
   inverse_lift h.inv12
 
+/-- rows of the two inverted tables exactly as the model computes them (stages 1 and 2 composed) -/
+theorem stage_rows (h : MHyp D) (y : Fin m) :
+    (inverse (condTab D.c1b D.c1u f) (liftT D.ax1)
+        ((mbr (liftT D.ax1) (condTab D.c1b D.c1u f)).getD (liftT D.ay)))[y]
+      = ⟨liftT (x1b f D y), XQ.fin (x1u f D y)⟩ ∧
+    (inverse (condTab D.c2b D.c2u f) (liftT D.ax2)
+        ((mbr (liftT D.ax2) (condTab D.c2b D.c2u f)).getD (liftT D.ay)))[y]
+      = ⟨liftT (x2b f D y), XQ.fin (x2u f D y)⟩ := by
+  rw [(stage1_lift h).1, (stage1_lift h).2, (stage2_lift h).1, (stage2_lift h).2, condTab_get,
+    condTab_get]
+  exact ⟨rfl, rfl⟩
+
 /-- the whole merge -/
 theorem merge_lift (h : MHyp D) (v : Bool) :
     mergeCond2 v (condTab D.c1b D.c1u f) (condTab D.c2b D.c2u f) (liftT D.ax1) (liftT D.ax2)
